@@ -498,8 +498,12 @@ def avoid_dead_links(root, machine, wrap_around=False):
                 # of the A* path.
                 new_node = lookup[(x, y)]
 
-                # Find the node's current parent and disconnect it.
-                for node in lookup[child]:  # pragma: no branch
+                # Find the node's current parent and disconnect it. (Note
+                # that the parent may no longer be reachable from the root of
+                # the disconnected subtree if an ancestor of this node has
+                # already been merged into the A* path, hence all nodes must
+                # be searched.)
+                for node in lookup.values():  # pragma: no branch
                     dn = [(d, n) for d, n in node.children if n == new_node]
                     assert len(dn) <= 1
                     if dn:
